@@ -220,7 +220,9 @@ class Server(base_server.BaseServer):
 
         # make sure the client uses an allowed transport
         transport = query.get('transport', ['polling'])[0]
-        if transport not in self.transports:
+        if transport not in self.transports or (
+                'websocket' not in self.transports and
+                environ.get('HTTP_UPGRADE', '').lower() == 'websocket'):
             self._log_error_once('Invalid transport', 'bad-transport')
             r = self._bad_request('Invalid transport')
             start_response(r['status'], r['headers'])
